@@ -471,6 +471,7 @@ fn harnesses() -> Vec<Harness> {
         Harness { name: "H9", what: "two threads render a template whose loops break / continue with text after the interrupt (interrupt state must be per render)", plan: vec![vec![Op::Render(10)], vec![Op::Render(10)]] },
         Harness { name: "H10", what: "four threads first-touch the same not-yet-compiled partial at once (more contenders than any other harness)", plan: vec![vec![Op::Render(6)], vec![Op::Render(6)], vec![Op::StoreTryGet("m")], vec![Op::Render(6)]] },
         Harness { name: "H11", what: "two threads parse the same never-seen template text with the shared parser at once, then render their copies (state the parser keeps across parse calls: interning, numbering, caches)", plan: vec![vec![Op::ParseRender(11)], vec![Op::ParseRender(11)]] },
+        Harness { name: "H12", what: "two threads parse *different* texts with the shared parser, each twice (anything the parser remembers between parse calls must be keyed correctly and updated atomically)", plan: vec![vec![Op::ParseRender(6), Op::ParseRender(6)], vec![Op::ParseRender(10), Op::ParseRender(10)]] },
         Harness { name: "H5", what: "a render that fails midway (partial error, missing partial) while another renders", plan: vec![vec![Op::Render(4)], vec![Op::Render(3)], vec![Op::Render(5)]] },
     ]
 }
@@ -758,7 +759,7 @@ fn main() {
     // counterexample found has the fewest preemptions
     let tasks: Vec<(usize, usize, bool)> = if tier.thorough() {
         let mut t = vec![(0, 0, true)];
-        for (hi, maxb) in [(1usize, 5usize), (2, 4), (3, 4), (4, 3), (5, 4), (6, 5), (7, 3), (8, 3), (9, 2), (10, 3), (11, 3)] {
+        for (hi, maxb) in [(1usize, 5usize), (2, 4), (3, 4), (4, 3), (5, 4), (6, 5), (7, 3), (8, 3), (9, 2), (10, 3), (11, 3), (12, 3)] {
             for b in 0..=maxb {
                 t.push((hi, b, false));
             }
@@ -766,7 +767,7 @@ fn main() {
         t
     } else {
         let mut t = vec![];
-        for (hi, maxb) in [(0usize, 3usize), (1usize, 2usize), (2, 2), (3, 2), (4, 1), (5, 2), (6, 2), (7, 1), (8, 2), (9, 1), (10, 2), (11, 1)] {
+        for (hi, maxb) in [(0usize, 3usize), (1usize, 2usize), (2, 2), (3, 2), (4, 1), (5, 2), (6, 2), (7, 1), (8, 2), (9, 1), (10, 2), (11, 2), (12, 1)] {
             for b in 0..=maxb {
                 t.push((hi, b, false));
             }
